@@ -131,7 +131,7 @@ def is_kill_fd(t, lf=None):
         src, dflt, clo = look(t[2][0]), look(t[2][1]), look(t[2][2])
         if is_call(src, "as_ref"):
             src = look(src[2][0])
-        return _kill_switch_field(src) and const_of(dflt) == -1 and clo[0] == "closure"
+        return _kill_switch_field(src) and const_of(dflt) == -1 and (clo[0] == "closure" or (clo[0] == "fnconst" and last_seg(clo[1]) == "as_raw_fd"))
     if lf is None:
         return False
     some = None
